@@ -119,24 +119,25 @@ let () = main_loop (function
            let (ok, t) = load to_double sentinel f doc in
            Printf.sprintf "p fail %d %d" (int_of_n line) (if (not ok) && dumps t = dumps sentinel then 1 else 0)
        | PFuel -> "p MODEL-OUT-OF-FUEL")
-  | ["w"; tr] ->
+  | [("w" | "wd") as op; tr] ->
+      let both = (op = "w") in
       (match (try Some (build tr) with _ -> None) with
-       | None -> "w BAD-TREE"
+       | None -> op ^ " BAD-TREE"
        | Some v ->
-         match save print16 false v, save print16 true v with
+         match save print16 false v, (if both then save print16 true v else Some []) with
          | Some c, Some r ->
              let refd = dumps v in
              let (rc, v1) = reload c refd in
-             let (rr, _) = reload r refd in
+             let rr = if both then fst (reload r refd) else "-" in
              let r2, eq = (match v1 with
                | None -> "-", "-"
                | Some v1 ->
                    let ref1 = dumps v1 in
                    let a = (match save print16 false v1 with Some t -> fst (reload t ref1) | None -> "T") in
-                   let b = (match save print16 true v1 with Some t -> fst (reload t ref1) | None -> "T") in
+                   let b = if both then (match save print16 true v1 with Some t -> fst (reload t ref1) | None -> "T") else a in
                    (if a = b then a else "LAYOUTS-DIFFER"), (if jeq v1 v then "1" else "0")) in
-             Printf.sprintf "w C=%s R=%s loc=1 rc=%s rr=%s r2=%s eq=%s" (hex_of_bytes c) (hex_of_bytes r) rc rr r2 eq
-         | _, _ -> "w throw")
+             Printf.sprintf "%s C=%s R=%s loc=1 rc=%s rr=%s r2=%s eq=%s" op (hex_of_bytes c) (if both then hex_of_bytes r else "-") rc rr r2 eq
+         | _, _ -> op ^ " throw")
   | ["g"; h] ->
       let b = n_of_u64 (Int64.of_string ("0x" ^ h)) in
       let ints = List.map (fun (nm, sg, w) ->
